@@ -1,4 +1,5 @@
 #![allow(dead_code, unused_variables, unused_assignments, unused_imports)]
+mod c10;
 mod c13;
 mod c17;
 mod codec;
